@@ -51,8 +51,12 @@ func copyNode(n *shared.ParserNode) *shared.ParserNode {
 
 // parseAll runs the callback parser with a callback that never stops.
 func parseAll(text string) (evs []parseEvent, ret error, pnc string) {
+	return parseAllCfg(text, parser.NewDefaultConfig())
+}
+
+func parseAllCfg(text string, cfg parser.Config) (evs []parseEvent, ret error, pnc string) {
 	pnc = safely(func() {
-		ret = parser.ParseStreamCallback(strings.NewReader(text), parser.NewDefaultConfig(), func(n *shared.ParserNode, err error) (bool, error) {
+		ret = parser.ParseStreamCallback(strings.NewReader(text), cfg, func(n *shared.ParserNode, err error) (bool, error) {
 			if err != nil {
 				evs = append(evs, parseEvent{Err: err.Error()})
 			} else {
@@ -224,9 +228,36 @@ func runC04(c *core.Ctx) {
 		core.ParallelFor(n, c.Procs, func(w, i int) {
 			r := c.Rng("random", i)
 			b := c04RandomBook(r)
-			text := gen.RenderBook(b, gen.Hostile(r))
+			st := gen.Hostile(r)
+			cfg := parser.NewDefaultConfig()
+			if i%6 == 5 {
+				// a parser configured with another comment character: '#' is then an ordinary character that
+				// may begin a name, and comments begin with the configured one
+				cc := []byte{';', '/', '`', '%', '!'}[r.Intn(5)]
+				ok := true
+				for _, rec := range b {
+					ok = ok && len(rec.Name) > 0 && rec.Name[0] != cc
+					for _, e := range rec.Ents {
+						ok = ok && e.Name[0] != cc
+					}
+				}
+				if ok {
+					for ri := range b {
+						b[ri].Notes = nil // how note lines read under another comment character is not documented
+						for ei := range b[ri].Ents {
+							if r.Intn(3) == 0 {
+								b[ri].Ents[ei].Name = "#" + b[ri].Ents[ei].Name
+							}
+						}
+					}
+					st.Comment, cfg.CommentChar = cc, cc
+					st.Quotes = false
+					c.Count("random_files_with_another_comment_character", 1)
+				}
+			}
+			text := gen.RenderBook(b, st)
 			c.Crumb(w, fmt.Sprintf("random file %d (%d bytes)", i, len(text)))
-			evs, ret, pnc := parseAll(text)
+			evs, ret, pnc := parseAllCfg(text, cfg)
 			c.Eval(1)
 			c.Nontrivial(text)
 			c.Max("random_max_file_bytes", len(text))
@@ -235,7 +266,7 @@ func runC04(c *core.Ctx) {
 				return
 			}
 			if class, msg := compareParsed(evs, ret, b); class != "" {
-				c.Violation("ParseStreamCallback|"+class, msg, map[string]any{"file": clip(text, 20000), "problem": msg})
+				c.Violation("ParseStreamCallback|"+class, msg, map[string]any{"file": clip(text, 20000), "problem": msg, "comment_char": int(cfg.CommentChar)})
 			}
 			if i == 0 {
 				c.Sample(map[string]any{"part": "random", "file": clip(text, 1500), "records": len(b)})
@@ -353,6 +384,26 @@ func runC04(c *core.Ctx) {
 		}
 		if k != len(rows) {
 			c.Violation("csv database|row", fmt.Sprintf("%d extra rows", len(rows)-k), doc)
+		}
+		// the record counter of stats: one record per heading of the file, repeated headings included
+		if i%3 == 0 {
+			if len(b) == len(bb) && len(b) > 0 && r.Intn(2) == 0 {
+				b = append(b, gen.Recipe{Name: b[r.Intn(len(b))].Name, Ents: b[len(b)-1].Ents})
+			}
+			full := gen.RenderBook(b, gen.Hostile(r))
+			srv.Write(map[string]string{"all.yaml": full, "none.yaml": ""})
+			sargs := []string{"-d", "all.yaml", "-l", "none.yaml", "stats"}
+			sres := srv.App1(sargs, nil)
+			c.Eval(1)
+			c.Count("cli_stats_record_counts", 1)
+			if len(b) != len(bb) {
+				c.Count("cli_stats_files_with_repeated_headings", 1)
+			}
+			st, err := obs.ParseStats(sres.Out)
+			if sres.Exit != 0 || err != nil || st.Fields["Database records"] != fmt.Sprint(len(b)) {
+				c.Violation("stats|record-count", fmt.Sprintf("exit %d, Database records %q for a file with %d headings (%d distinct)", sres.Exit, st.Fields["Database records"], len(b), len(bb)),
+					caseDoc{Files: map[string]string{"all.yaml": full, "none.yaml": ""}, Args: sargs, Observed: resDoc(sres)})
+			}
 		}
 		// the same file through a pipe (-d /dev/stdin): a non-seekable input must read the same
 		if i%4 == 0 {
